@@ -74,6 +74,10 @@ def html_to_nodes(
     :param inline: the text is inline HTML (a single tag),
         which can not be an admonition block
     """
+    # (before anything else, so that every path below emits the filtered text)
+    if renderer.md_config.gfm_only:
+        text, _ = RE_FLOW.subn(lambda s: s.group(0).replace("<", "&lt;"), text)
+
     try:
         return _html_to_nodes(text, line_number, renderer, inline)
     except RecursionError:
@@ -91,9 +95,6 @@ def html_to_nodes(
 def _html_to_nodes(
     text: str, line_number: int, renderer: DocutilsRenderer, inline: bool
 ) -> list[nodes.Element]:
-    if renderer.md_config.gfm_only:
-        text, _ = RE_FLOW.subn(lambda s: s.group(0).replace("<", "&lt;"), text)
-
     enable_html_img = "html_image" in renderer.md_config.enable_extensions
     enable_html_admonition = (
         not inline and "html_admonition" in renderer.md_config.enable_extensions
